@@ -163,6 +163,41 @@ CHECKS = {
             TB + "float distances are compared with tolerance outside the exact family; the log back-end's fronts satisfy the spec by C04's per-run certificate, "
             "not by a general proof.",
             "Lean 4 proof over a hand-written model + differential correspondence + oracle"),
+    "C03": ("full",
+            "Lean theorems (C03.truthful, evals_exact, nevals_logged, log_shape(+_gu), hof_fed, every_boundary, eaSimple/eaMuPlusLambda/eaMuCommaLambda/"
+            "eaMuPlusLambdaBest/harm/eaGenerateUpdate_correct, plus_monotone) hold for the generational machine of Core/Loops.lean for every ngen, every "
+            "selection/variation/acceptance tape, every pure evaluate and every operator pair meeting C02's OpContract, at every generation boundary; the "
+            "real loops (GA, NSGA-II, GP, gp.harm, CMA-ES and a persistent-individual ask/tell strategy) are replayed generation by generation (logbook, "
+            "evaluate calls, hall-of-fame feed, population and fitnesses at every boundary, clone/mate/mutate sequence) and the statement is evaluated as an oracle at every boundary.",
+            TB + "HARM-GP acceptance arithmetic and the CMA update are outside the model (their results are read off the trace); selectors return members of their input; "
+            "initial population = distinct objects, pre-evaluated truthfully; evaluate pure.",
+            "Lean 4 proof over a hand-written model + trace refinement + oracle"),
+    "C07": ("partial",
+            "Lean theorems C07.*: SPEA2 returns exactly k distinct input objects, all non-dominated when #nd<=k, only non-dominated when #nd>=k (incl. the "
+            "truncation invariant spea2_to_remove_distinct), for every density/distance value; NSGA-III niching/selNSGA3: exactly k distinct input objects, earlier "
+            "fronts whole, niche balance, termination, for every shuffle tape; uniform_reference_points: C(M+p-1,p) distinct simplex points incl. scaling; association "
+            "= argmin of the distance to the reference line (over R); memory = order-independent monotone min/max; quick-select terminates on every pivot tape. "
+            "Correspondence through the compiled driver on implementation-captured fronts, association and densities; the statement clauses are recomputed independently "
+            "as oracle (brute-force ranks, perpendicular distance, balance from the returned selection).",
+            TB + "partial only because of (a) association/normalisation: find_extreme_points/find_intercepts (LAPACK) are not modelled and the argmin theorem is over R, "
+            "correspondence with tolerance 1e-9, near-ties compared on distances only; (b) pareto_fronts are taken from the real sort (C04). All other clauses are "
+            "proof-level. SPEA2 fits values are read from the running frame (theorems hold for any).",
+            "Lean 4 proof over hand-written models (loop invariants for truncation and niching) + tape-replay correspondence + oracle"),
+    "C14": ("partial",
+            "Lean theorems over Core/CmaElitist.lean for all inputs: elitism of both (1+lambda) strategies over any history (elitist_never_worse, "
+            "active_elitist_never_worse), psucc in [0,1] / sigma>0 over any history (psucc_sigma_history, active_psucc_sigma_history, mo_psucc_sigma), "
+            "rank_one_identity + inverse_update (Sherman-Morrison) for _rankOneUpdate with the magnitude guard (guard_sign_free), all three branches of the "
+            "active update incl. the capped negative one (active_rank_one_positive/negative, active_inverse_update), infeasible_inv under the inv contract, "
+            "active_update_inverse / mo_update_inverse for one whole update, the (1+lambda) success rule, A A^T=C under the Cholesky contract and "
+            "preservation of positive definiteness (onepl_cov_rule, onepl_factor, onepl_posdef), MO selection count / rank-then-indicator closed form / "
+            "alignment of the five per-parent lists (mo_select_count, mo_rank_then_hv, mo_alignment, mo_adjust_spec, mo_offspring_values). Not proved: "
+            "the active inverse invariant chained through constraint updates over whole histories (active_inverse_history_Statement; one round proved). "
+            "The Float instance of the same definitions is diffed against the real strategies on 1..300-round histories and the statement is evaluated "
+            "as an oracle after every round while cond(A)<1e12.",
+            TB + "numpy.linalg.cholesky/inv (LAPACK), numpy.around, sortLogNondominated (C04) and the hypervolume indicator (C15) are model parameters whose "
+            "contracts (A A^T=C lower-triangular, inv(M) M=I, ranks, least contributor) are validated numerically on every call; IEEE rounding: theorems are over "
+            "the reals, correspondence uses relative tolerance 1e-9 (inverse checks scaled by cond).",
+            "Lean 4 proof over a hand-written model (Mathlib matrices via a list<->Matrix bridge) + differential correspondence with tolerance + oracle"),
 }
 
 NOT_YET = {}
